@@ -66,6 +66,7 @@ def run(R):
                      "element. Disjunction absorbs subsumed proofs, so a tag can change while its number of proofs stays the same; "
                      "update_disjunction then discards the improved tag")
     r9(R)
+    r10(R)
     # ---- R1 (positive round) and R3, shared with C12
     c12.r5_r6(Remap(R, {"C12-R5": "C06-R1", "C12-R6": "C06-R3"}))
     c12.r3(Remap(R, {"C12-R3": "C06-R3"}))
@@ -465,3 +466,33 @@ def r9(R):
             R.ob("C06-R9", "whole-tags:default:" + a.split("::")[-1], "%s, which uses the default saturation test, maps different tags to different images" % a.split("::")[-1], ok,
                  where=default.where(), detail=None if ok else "its image function is not one-to-one: %s - two expiries beyond 2^53 that differ by less than the "
                  "spacing of f64 count as `nothing changed`, the later expiry is dropped and the fact is not re-queued" % lossy)
+
+
+def r10(R):
+    """a first tag is written only for a fact that has none: the memory of what was derived lives as long as the pass"""
+    import c01
+    prog = R.prog
+    R.rule("C06-R10", "`first tag` means first in the whole pass: where the negative pass writes a tag with set_tag (which overwrites) instead of merging "
+                      "with update_disjunction, the test that sends it there consults only collections that live for the whole pass - created before the "
+                      "loop over the rules. A memory that is re-created per rule forgets what an earlier rule derived: the second NAF rule that concludes "
+                      "the same triple overwrites the first derivation's tag, and the reported probability covers the last rule only")
+    b = R.body("C06-R10", "provenance_semi_naive::run_negative_stratum_pass", crate="datalog")
+    if b is None:
+        return
+    R.saw(b)
+    sets = [c for c in b.calls() if c.name() == "set_tag" and b.loops_containing(c.bb)]
+    if not R.ob("C06-R10", "writes", "the negative pass writes first tags in its rule loop (found %d set_tag)" % len(sets), len(sets) >= 1, where=b.where()):
+        return
+    for c in sets:
+        loops = b.loops_containing(c.bb)
+        outer = max(loops, key=lambda hl: len(hl[1]))[1]
+        mem = []
+        for cd in G.conditions(b, c.bb):
+            cc = cd.get("call")
+            if cd.get("kind") == "call" and cc is not None and cc.name() in ("contains", "insert", "contains_key", "get") and cc.args and cd.get("bb") in outer:
+                cr = c01._creation_of(b, cc.args[0])
+                where = "parameter" if cr and cr[0] == "param" else ("unknown" if cr is None else ("inside the rule loop" if all(k in outer for k in ([cr[1]] if cr[0] == "created" else cr[1])) else "before the rule loop"))
+                mem.append((cc.name(), b.local_name(b.alias_root(cc.args[0])) if b.alias_root(cc.args[0]) is not None else "?", where))
+        bad = [m for m in mem if m[2] in ("inside the rule loop", "unknown")]
+        R.ob("C06-R10", "pass-wide:%d" % (c.ln or 0), "the `not derived yet` test in front of set_tag consults pass-wide memories only (consulted: %s)" % mem, bool(mem) and not bad,
+             where=b.where(c.ln), detail=None if (mem and not bad) else "two NAF rules that conclude the same triple: the second overwrites the first derivation's tag")
